@@ -1,6 +1,6 @@
 (* C08 — property theorems (statements only; proofs live in Proofs*.v).  See notes/C08.md for the status of each. *)
 From Coq Require Import List ZArith QArith Qabs Bool.
-Require Import QV.C08.Model QV.C08.Spec QV.C08.Wf QV.C08.Proofs QV.C08.ProofsVec QV.C08.ProofsRev QV.C08.ProofsConst QV.C08.ProofsTotal QV.C08.ProofsProper QV.C08.ProofsCtor.
+Require Import QV.C08.Model QV.C08.Spec QV.C08.Wf QV.C08.Proofs QV.C08.ProofsVec QV.C08.ProofsRev QV.C08.ProofsConst QV.C08.ProofsTotal QV.C08.ProofsProper QV.C08.ProofsCtor QV.C08.Hist QV.C08.ProofsHist.
 Import ListNotations.
 Open Scope Q_scope.
 
@@ -167,3 +167,15 @@ Theorem C08_subset_partial : forall w cs w', subset_simple w = true -> get_subse
   (set_eqb cs (channels w) = true -> w' = w).
 Proof. exact get_subset_simple_sound. Qed.
 Print Assumptions C08_subset_partial.
+
+(* ---- call histories (state machine Hist.v: per-instance cache of TransformingWaveform keyed by array identity) ---- *)
+Definition C08_history_statement : Prop :=
+  forall w calls, (* every array object keeps its content over the history *)
+  (forall c a ts c' a' ts', In (c, a, ts) calls -> In (c', a', ts') calls -> a = a' -> ts = ts') ->
+  run_hist w calls [] = map (fun call => get_sampled w (fst (fst call)) (snd call)) calls.
+(* proved: waveforms without TransformingWaveform nodes have no state at all: every call of ANY history (array objects
+   reused, contents changed in place, any order of channels) is answered like a single call on a fresh object *)
+Theorem C08_history_partial : forall w, no_trans w = true -> forall calls s,
+  run_hist w calls s = map (fun call => get_sampled w (fst (fst call)) (snd call)) calls.
+Proof. exact history_independent_no_trans. Qed.
+Print Assumptions C08_history_partial.
